@@ -196,7 +196,7 @@ def self_test():
 
 
 LAWS = [
-    given_law("structure_function", sf_cases(), sf_body, {"quick": 800, "thorough": 5000}),
-    given_law("temporal_ps", tps_cases(), tps_body, {"quick": 600, "thorough": 4000}),
-    given_law("screens_ensemble", ens_cases(), ens_body, {"quick": 6, "thorough": 30}, shards={"quick": 3, "thorough": 16}),
+    given_law("structure_function", sf_cases(), sf_body, {"quick": 800, "thorough": 12500}, shards={"quick": 3, "thorough": 16}),
+    given_law("temporal_ps", tps_cases(), tps_body, {"quick": 600, "thorough": 10000}, shards={"quick": 3, "thorough": 16}),
+    given_law("screens_ensemble", ens_cases(), ens_body, {"quick": 8, "thorough": 80}, shards={"quick": 4, "thorough": 16}),
 ]
